@@ -21,7 +21,8 @@ package main
 //	             nil = fields without FieldBase
 //	<struct> ::= "S{" <slot> {";" <slot>} "|" <marks> "|" <fieldlist> "|" <devlist> "}"
 //	             one <slot> per table slot in emission order: a <value> of valcodec.go (fixed arrays as slices; "inv:" is a
-//	             nil slice) or "t:" <seconds since the FIT epoch, signed decimal> for a time.Time (whole seconds, UTC)
+//	             nil slice) or "t:" <seconds since the FIT epoch, signed decimal> for a time.Time (whole seconds, UTC), or
+//	             "rb:" <hex byte 02..fe> for a typedef.Bool field holding something else than 0, 1, 255 (a proto.Value cannot)
 //	<marks>  ::= "-" | <num> {"," <num>}      the numbers k in 0..255 for which IsExpandedField(k)
 //	             <fieldlist>/<devlist>: UnknownFields / DeveloperFields in the syntax of msgcodec.go
 //
@@ -746,6 +747,10 @@ func genTyped(emit func(string), tier string, rng *Rng) {
 					v = proto.Bool(typedef.Bool(r.Intn(2)))
 				}
 				setSlotContent(sl, f, v)
+				if sl.kind == "bool" && wild && r.Intn(2) == 0 {
+					setBits(f, uint64(2+r.Intn(253))) // a typedef.Bool that is neither false, true nor invalid
+					count("struct-bool-other")
+				}
 				if sl.canExpand && r.Intn(3) == 0 {
 					t.markAsExpanded(s, sl.num, true)
 				}
